@@ -1,0 +1,21 @@
+//go:build verif
+
+package database
+
+// Contracts checked by /verif/gocv (comment-only file; see /verif/DESIGN.md §3).
+
+// The per-reader close hook installed by WithTxReadClosers: it counts one reader down (one atomic step) and releases
+// the transaction exactly when the count reaches zero, i.e. when the last of the readers is closed.
+//@ func WithTxReadClosers$1
+//@ ensures[C36:counts-down-by-one] remaining == old(remaining) - 1
+//@ effect[C36:release-only-by-last-reader] every tx.Rollback(_) where remaining == 1
+//@ ensures[C36:last-reader-releases] old(remaining) == 1 ==> called(tx.Rollback)
+
+// WithTxReadClosers: the error path and the no-reader path release the transaction before returning; otherwise the
+// transaction stays open and every returned reader carries the counting hook.
+//@ func WithTxReadClosers
+//@ mode effects
+//@ ensures[C36:error-path-releases] err != nil && result_of(db.BeginTx, 1) == nil ==> called(tx.Rollback)
+//@ ensures[C36:no-readers-releases] err == nil && len(result) == 0 ==> called(tx.Rollback)
+//@ ensures[C36:open-readers-keep-tx] err == nil && len(result) > 0 ==> !called(tx.Rollback)
+//@ effect[C36:every-reader-hooked] every ioutils.NewReadCloserWithCloseHook(_, $hook) where $hook != nil
